@@ -15,7 +15,7 @@ MC : SvgPathLaws  - the algebraic identities a path minifier relies on (abs<->re
 RUN: harness/cmd/c05 renders nothing itself: it gets bytes, calls the real public API (ONE minify.M with
      ONE registered *svg.Minifier and *html.Minifier per session; inline SVG goes through the HTML minifier)
      and projects input and output with encoding/xml / x/net/html.
-     SvgPathPrint - byte-level prediction of the shortener's output for integer path data (decisions of
+     SvgPathPrint - byte-level prediction of the shortener's output for path data with float-exact numbers (integers, halves, the compact family) (decisions of
                     SvgPathDecide + number spelling, separators, letter elision, shorter twin): DRIFT comparison
                     with the real output bytes on every such trace line (information, never a verdict).
 TV : C05Trace evaluates, in TLC, PathVerdict (PathGrammar on the output bytes, Interp on both
@@ -97,7 +97,13 @@ def accepting_prefix(toks):
     return toks[:n]
 
 
+LEX = ['1e3', '2e3', '5e-4', '.5', '-.5', '1.5', '1e2']     # spellings that are already the shortest
+LEX_STYLE = dict(name='lex', sep=[''], forms=['lex'], plus=0.0, omit=1.0, compact=1.0, lsp=0.0, lex=True)
+
+
 def num_forms(v, dec, rnd, style, nodot=False):
+    if style.get('lex'):
+        return LEX[v]
     """one spelling of the exact decimal v / 10^dec"""
     neg = v < 0
     a = abs(v)
@@ -194,7 +200,7 @@ def render_path(toks, rnd, style=None, dec=None):
             if gi == 0:
                 write = not (can_omit and rnd.random() < style['omit'])
             else:
-                write = not can_omit or rnd.random() < 0.15
+                write = not can_omit or (rnd.random() < 0.15 and not style.get('lex'))
             if write:
                 if rnd.random() < style['lsp'] and out:
                     out.append(rnd.choice([' ', '\n', '  ']))
@@ -223,9 +229,9 @@ def render_path(toks, rnd, style=None, dec=None):
                 prev = 'letter'
                 prev_letter = None
     b = ''.join(out)
-    if rnd.random() < 0.15:
+    if not style.get('lex') and rnd.random() < 0.15:
         b = rnd.choice([' ', '\n']) + b + ' '
-    return b.encode(), dec
+    return b.encode(), ('lex' if style.get('lex') else dec)
 
 
 NUM_RE = re.compile(r'[+-]?(?:\d+\.?\d*|\.\d+)(?:[eE][+-]?\d+)?')
@@ -272,7 +278,7 @@ def check_render(toks, b, dec):
             for pos in range(ar):
                 v = vals[gi * ar + pos]
                 isflag = u == 'A' and pos in (3, 4)
-                want.append((gl, Decimal(v) if isflag else Decimal(v).scaleb(-dec)))
+                want.append((gl, Decimal(v) if isflag else (Decimal(LEX[v]) if dec == 'lex' else Decimal(v).scaleb(-dec))))
             if ar == 0:
                 want.append((gl, None))
     got = []
@@ -539,6 +545,20 @@ def path_pairs_cfg(ctx):
         'CHECK_DEADLOCK FALSE', '']))
 
 
+def path_lex_cfg(ctx, maxtok, sim):
+    """'compact' family: the abstract coordinates are indices into LEX (numbers whose spelling is already the
+    shortest, with and without exponent, with and without leading dot), written without any separator the
+    grammar does not require: an input on which the shortener has nothing to save, so every byte it writes too
+    much overruns what it has not read yet (it rewrites the attribute in place)"""
+    return write_cfg(ctx, 'SvgPathGen_run_lex%s.cfg' % ('sim' if sim else ''), '\n'.join([
+        'SPECIFICATION Spec',
+        'CONSTANTS MaxTok = %d' % maxtok, 'MaxGroups = 1000', 'Letters <- LettersAll', 'Modes <- ModesFree',
+        'Coords <- CoordsLex', 'MCoords <- CoordsLex', 'Radii <- RadiiLex', 'Rots <- CoordsLex',
+        'ExclZ = FALSE', 'ExclDeg = FALSE', 'ExclZeroL = FALSE',
+        'INVARIANTS %s' % ('Emit' if sim else 'Counters EmitAcc'),
+        'CHECK_DEADLOCK FALSE', '']))
+
+
 def path_gen_cfg(ctx, maxtok, sim, big=False):
     """sim with the small coordinate set: long walks in which coincidences (control point = reflection of the
     previous one, = an end point, zero-length lines) are frequent, i.e. the C->S, Q->T, curve->line rewrites
@@ -589,6 +609,8 @@ def generate(ctx):
     t0 = vlib.time.time()
     cfg_pb = path_gen_cfg(ctx, 7 if q else 8, False)
     cfg_pp = path_pairs_cfg(ctx)
+    cfg_lx = path_lex_cfg(ctx, 5 if q else 6, False)
+    cfg_ls = path_lex_cfg(ctx, 60, True)
     cfg_ps = path_gen_cfg(ctx, 120, True)
     cfg_pl = path_gen_cfg(ctx, 120, True, big=True)
     cfg_db = doc_gen_cfg(ctx, 'bfs', 7 if q else 8, 3 if q else 4)
@@ -609,25 +631,28 @@ def generate(ctx):
         pl=lambda: vlib.tlc(ctx, 'SvgPathGen', cfg_pl, workers=1, simulate='num=%d' % (30 if q else 400), depth=125,
                             seed=ctx.seed, timeout=1800),
         db=lambda: vlib.tlc(ctx, 'SvgDocGen', cfg_db, workers=min(4, w), heap='4g', timeout=3000),
+        lx=lambda: vlib.tlc(ctx, 'SvgPathGen', cfg_lx, workers=2, heap='3g', timeout=3000),
+        ls=lambda: vlib.tlc(ctx, 'SvgPathGen', cfg_ls, workers=1, simulate='num=%d' % (40 if q else 600), depth=65,
+                            seed=ctx.seed, timeout=1800),
         pp=lambda: vlib.tlc(ctx, 'SvgPathGen', cfg_pp, workers=max(2, w // 2), heap='4g', timeout=3000),
         cs=lambda: vlib.tlc(ctx, 'SvgCallSeq', 'SvgCallSeq.cfg', workers=1, timeout=600),
         ds=lambda: vlib.tlc(ctx, 'SvgDocGen', cfg_ds, workers=1, simulate='num=%d' % (300 if q else 4000), depth=45,
                             seed=ctx.seed, timeout=1800),
     )
-    with ThreadPoolExecutor(max_workers=11) as ex:
+    with ThreadPoolExecutor(max_workers=13) as ex:
         fut = {}
         for k, f in jobs.items():
             fut[k] = ex.submit(f)
             vlib.time.sleep(0.3)        # (vlib.tlc numbers its scratch directories without a lock)
         res = {k: f.result() for k, f in fut.items()}
-    for k in ('laws', 'laws2', 'design', 'design2', 'pb', 'pp', 'db', 'cs'):
+    for k in ('laws', 'laws2', 'design', 'design2', 'pb', 'pp', 'lx', 'db', 'cs'):
         r = res[k]
         if r is None:
             continue
         if r['invariant_violations'] or r['errors'] or not r['completed']:
             raise vlib.Infra('design-level model checking (%s) did not pass:\n%s' % (k, r['out'][-3000:]))
         ctx.add_mc(r)
-    for k in ('ps', 'pl', 'ds'):
+    for k in ('ps', 'pl', 'ls', 'ds'):
         r = res[k]
         if r['errors'] or r['invariant_violations']:
             raise vlib.Infra('simulation (%s) failed: %s' % (k, r['out'][-1500:]))
@@ -647,6 +672,10 @@ def generate(ctx):
     ctx.coverage['docs_enumerated'] = len(dex)
     dsim = uniq(tlc_json_lines(res['ds']['out']))
     ctx.coverage['docs_simulated'] = len(dsim)
+    plex = uniq(tlc_json_lines(res['lx']['out']))
+    lsim = uniq([accepting_prefix(t) for t in tlc_json_lines(res['ls']['out'])])
+    plex += list({json.dumps(t[:50]): t for t in lsim}.values())
+    ctx.coverage['compact_lexeme_paths'] = len(plex)
     ppairs = uniq(tlc_json_lines(res['pp']['out']))
     ctx.coverage['curve_pair_paths_enumerated'] = len(ppairs)
     cseq = tlc_json_lines(res['cs']['out'])
@@ -654,7 +683,7 @@ def generate(ctx):
     if not pex or not psim or not dex or not dsim or not cseq or not ppairs:
         raise vlib.Infra('a generator produced nothing')
     vlib.log('C05 generate: %.1fs (%s)' % (vlib.time.time() - t0, ', '.join('%s %.0fs' % (k, r['wall']) for k, r in res.items() if r)))
-    return pex, psim, dex, dsim, cseq, ppairs
+    return pex, psim, dex, dsim, cseq, ppairs, plex
 
 
 def design_sensitivity(ctx):
@@ -727,7 +756,7 @@ def repo_cases(ctx):
 def make_cases(ctx):
     rnd = ctx.rnd
     q = ctx.quick()
-    pex, psim, dex, dsim, cseq, ppairs = generate(ctx)
+    pex, psim, dex, dsim, cseq, ppairs, plex = generate(ctx)
     cases = []
 
     def add(c):
@@ -737,13 +766,16 @@ def make_cases(ctx):
 
     # exhaustive paths: every enumerated token string in one seeded style (quick: a seeded share of
     # them), batched into documents of 20 paths (the minifier reuses one PathData per document)
-    share = vlib.sample(pex, 7000, rnd) if q else pex
+    share = vlib.sample(pex, 6000, rnd) if q else pex
     rendered = [rendered_path(t, rnd) for t in share]
     if not q:
         rendered += [rendered_path(t, rnd, style=STYLES[3], dec=1) for t in pex[::3]]
     for t in psim:
         for _ in range(2 if q else 4):
             rendered.append(rendered_path(t, rnd))
+    # compact family: shortest spellings, no separators (quick: a seeded share of the enumerated ones)
+    for t in (vlib.sample(plex, 1500, rnd) if q else plex):
+        rendered.append(rendered_path(t, rnd, style=LEX_STYLE))
     # curve pairs from forcing templates (exhaustive over {0,1}; quick: a seeded share)
     for t in (vlib.sample(ppairs, 4000, rnd) if q else ppairs):
         rendered.append(rendered_path(t, rnd))
@@ -1032,6 +1064,24 @@ def run(ctx):
     os.environ['C05_RAW'] = '1'
     t0 = vlib.time.time()
     lines = run_driver(ctx, exe, cases, 'main')
+    # 'fixpoint' family: the minifier's OWN output is path data in the most compact spelling it knows; fed back
+    # (second pass) it must again be accepted and denote the same segments.  The shortener rewrites the attribute
+    # in place, so writing even one byte more than it has read overruns the rest of the path exactly here.
+    outs, seen_o = [], set()
+    for l in lines:
+        if l.startswith('{"kind":"path"') and '"ok":true' in l[:120]:
+            m = re.search(r'"out":(\[[^\]]*\])', l)
+            if m and m.group(1) not in seen_o and len(m.group(1)) > 2:
+                seen_o.add(m.group(1))
+                outs.append(m.group(1))
+    outs = vlib.sample(outs, 1500 if ctx.quick() else 200000, ctx.rnd)
+    fix = []
+    for i in range(0, len(outs), 20):
+        fix.append(dict(id=len(cases) + len(fix), kind='path', mode='inline' if (i // 20) % 4 == 3 else 'standalone', gen=False,
+                        session=2, origin='fixpoint', paths=[json.loads(o) for o in outs[i:i + 20]]))
+    cases.extend(fix)
+    lines += run_driver(ctx, exe, fix, 'fixpoint')
+    ctx.coverage['fixpoint_paths'] = len(outs)
     vlib.log('C05 driver: %d cases, %d lines, %.1fs' % (len(cases), len(lines), vlib.time.time() - t0))
     t0 = vlib.time.time()
     del DRIFT[:]
@@ -1094,7 +1144,8 @@ def run(ctx):
              'previous one, control points on end points) in the walks and, exhaustively over {0,1}, for M + two groups; '
              'plus the inputs of pathdata_test.go / svg_test.go, the fuzz corpora and _benchmarks. All calls of a run go, in '
              'seeded order, through ONE registry with one registered *svg.Minifier / *html.Minifier (standalone and inline '
-             'interleaved); every standalone/inline call order up to 4 (TLC, SvgCallSeq) also on fresh registries. '
+             'interleaved); the compact family (shortest spellings 1e3 2e3 5e-4 .5 -.5 1.5 1e2 without any optional separator) '
+             'and the fixpoint family (the outputs of this run fed back as inputs); every standalone/inline call order up to 4 (TLC, SvgCallSeq) also on fresh registries. '
              'Geometry is evaluated when the input fits 32-bit fixed point (else grammar only). Not generated while the '
              'known findings are open: ' + '; '.join('%s = %s' % (k, v) for k, v in EXCLUSIONS.items() if excluded(k)),
         samples=samples,
